@@ -15,7 +15,7 @@ For two flows ALL interleavings of the two scripts are enumerated (up to 70), fo
 sampled; variants add at interleaving points: switching away and straight back, switch_to_default_flow and back, \
 save -> fresh story -> load_state (once, or before every step), remove_flow of a flow that has finished its script, and a variant in which the first script plays in the default flow while finished named flows are removed as the current flow (the story falls back to the default flow without a switch call). Oracle: each flow's \
 observations (lines, tags, choices, end) equal those of the same script run alone in a single-flow story, and \
-its globals end with the solo values. Cases whose solo run reports an error are discarded (an unhandled error \
+its globals end with the solo values; on coming back to a flow the host sees the text, tags and choices it saw when it left; a removed flow is absent from the next save. Cases whose solo run reports an error are discarded (an unhandled error \
 halts the whole story by design). Non-trivial = interleaving with >= 2 switches in which a flow is parked at a \
 choice point or mid-paragraph; distinct = hash(program, scripts, interleaving, variant).";
 
@@ -186,6 +186,18 @@ pub fn exec(case: &J, acc: &mut Acc) -> Result<(), Fail> {
         let mut removed = vec![false; nflows];
         let mut current: Option<usize> = None;
         let mut switches = 0;
+        // what each flow showed when the host last left it (text, tags, choices)
+        type Shown = (Option<String>, Option<Vec<String>>, Vec<(String, Vec<String>)>);
+        let mut shown: Vec<Option<Shown>> = vec![None; nflows];
+        let poll = |h: &mut Host| -> Shown {
+            (
+                h.story.get_current_text().ok(),
+                h.story.get_current_tags().ok(),
+                h.story.get_current_choices().iter().map(|c| (c.text.clone(), c.tags.clone())).collect(),
+            )
+        };
+        let mut back_diff: Option<String> = None;
+        let mut removed_still_saved: Option<String> = None;
         for (step, &f) in order.iter().enumerate() {
             if (variant == 3 && step == at) || variant == 5 {
                 // save -> fresh story -> load
@@ -233,6 +245,15 @@ pub fn exec(case: &J, acc: &mut Acc) -> Result<(), Fail> {
                 }
                 current = Some(f);
             }
+            // switching away and back is a no-op: the flow shows what it showed when it was left
+            if started[f] && variant != 3 && variant != 5 {
+                if let Some(before) = &shown[f] {
+                    let now = poll(&mut h);
+                    if *before != now && back_diff.is_none() {
+                        back_diff = Some(format!("flow {} showed {:?} when the host left it and shows {:?} on coming back", FLOWS[f], before, now));
+                    }
+                }
+            }
             if !started[f] {
                 h.apply(&HostOp::ChoosePath { path: entries[f].clone(), reset: false, args: vec![] });
                 started[f] = true;
@@ -241,15 +262,24 @@ pub fn exec(case: &J, acc: &mut Acc) -> Result<(), Fail> {
             h.apply(&scripts[f][next[f]]);
             next[f] += 1;
             got[f].extend(story_obs(&h.trace[m..]));
+            shown[f] = Some(poll(&mut h));
             if variant == 6 && f != 0 && next[f] >= scripts[f].len() && !removed[f] {
                 h.apply(&HostOp::RemoveFlow(FLOWS[f].to_string()));
                 removed[f] = true;
                 current = Some(0);
+                // a removed flow is gone: the next save does not carry it
+                if let Ok(sv) = h.story.save_state() {
+                    if let Ok(j) = serde_json::from_str::<J>(&sv) {
+                        if j["flows"].get(FLOWS[f]).is_some() && removed_still_saved.is_none() {
+                            removed_still_saved = Some(FLOWS[f].to_string());
+                        }
+                    }
+                }
             }
         }
-        Ok::<_, String>((got, h.view().globals, h.fuel_exhausted(), switches))
+        Ok::<_, String>((got, h.view().globals, h.fuel_exhausted(), switches, back_diff, removed_still_saved))
     });
-    let (got, globals, fuel, switches) = match r {
+    let (got, globals, fuel, switches, back_diff, removed_still_saved) = match r {
         Err(p) => return Err(panic_fail(&p, "interleaved run", case)),
         Ok(Err(e)) => {
             if e.starts_with("load_state") {
@@ -267,6 +297,12 @@ pub fn exec(case: &J, acc: &mut Acc) -> Result<(), Fail> {
         acc.nontrivial(fnv(&case.to_string()));
     }
     acc.class(&format!("variant:{variant}"));
+    if let Some(d) = back_diff {
+        return Err(Fail::violation("switch-back-view-differs", format!("variant {variant}: {d}"), case.clone()));
+    }
+    if let Some(name) = removed_still_saved {
+        return Err(Fail::violation("removed-flow-still-saved", format!("variant {variant}: flow {name} was removed but the next save still carries it"), case.clone()));
+    }
     for f in 0..nflows {
         if let Some((i, a, b)) = first_diff(&solo.obs[f], &got[f]) {
             return Err(Fail::violation(
